@@ -177,6 +177,8 @@ pub fn variant(g: &G, sel: u64) -> G {
                 G::LineString(r)
             }
             2 if v.len() == 2 => G::Line(v[0], v[1]),
+            // a closed line string may start at any of its vertices, in either direction
+            2 | 3 if v.len() >= 4 && v.first() == v.last() => G::LineString(rot_ring(v, (sub % 64) as usize, sub & 64 != 0)),
             _ => G::Coll(vec![g.clone()]),
         },
         G::Polygon(p) => match which {
